@@ -6,7 +6,7 @@ import subprocess
 import time
 
 from vlib.harness import Harness
-from vlib.symx import Violation, assume, pick, reached
+from vlib.symx import Violation, assume, native, pick, reached
 
 
 # ---------------------------------------------------------------------------
@@ -300,7 +300,7 @@ def make_e_pairs(params, part, nparts):
                     i_req=c_ireq, i_pos=c_ireq + c_iopt, i_va=bool(c_if & 1), i_kw=bool(c_if & 2))
         m = ('attr', 'method', 'class')[c_mode]
         reached((c_mode, c_rreq, c_ropt, c_rf, c_ireq, c_iopt, c_if), dict(mode=m, **vals))
-        check_pair(vals, m)
+        native(check_pair, vals, m)
     return h
 
 
@@ -388,7 +388,7 @@ def make_e_errors(params, part, nparts):
         c_m1 = pick(m1, 5)
         assume(c_m1 % nparts == part)
         case = (pick(declares, 2), pick(tentative, 2), pick(attr_state, 2), c_m1, pick(m2, 5), pick(vclass, 2))
-        run_errors_case(case)
+        native(run_errors_case, case)
     return h
 
 
